@@ -32,6 +32,10 @@ def run_shard(spec, acc):
 
 def replay(case, acc):
     from qsmon import core
+    if 'market' in case:
+        from qsmon import sesswl
+        sesswl.run_case(case, acc, PROP)
+        return
     try:
         calwl.run_sched_case(case, acc)
     except core.Violation as v:
